@@ -1,4 +1,7 @@
 -- Root of the library: every property module (each imports its model and generated tables).
+import BV.Props.C02
+import BV.Props.C03
+import BV.Props.C04
 import BV.Props.C15
 import BV.Props.C16
 import BV.Props.C18
